@@ -419,16 +419,17 @@ Fixpoint removable (c : cfg) (prod : bool) (targets : list row) (ps : list pod) 
       (if ok then p :: l else l, um')
   end.
 
-(* balancePods (targets non-empty) *)
+(* balancePods (targets non-empty). [resv]: usage of the target nodes including the
+   reservations made by the NodeFit check; sources and targets of a pass are different nodes,
+   so this map never meets the running estimates of the sources in [st] *)
 Fixpoint balance_pods (c : cfg) (prod : bool) (targets : list row) (srcs : list row)
-  (st : ustate) (dm : dmap) : list ev * ustate * dmap :=
+  (st : ustate) (resv : umap) (dm : dmap) : list ev * ustate * dmap :=
   match srcs with
   | [] => ([], st, dm)
   | r :: t =>
-    let '(rem, um1) := removable c prod targets (r_pods prod r) (fst st) in
-    let st1 := (um1, snd st) in
-    let '(evs1, st2, dm2) := evict_pods c prod r (sort_by pod_leb rem) st1 dm in
-    let '(evs2, st3, dm3) := balance_pods c prod targets t st2 dm2 in
+    let '(rem, resv1) := removable c prod targets (r_pods prod r) resv in
+    let '(evs1, st2, dm2) := evict_pods c prod r (sort_by pod_leb rem) st dm in
+    let '(evs2, st3, dm3) := balance_pods c prod targets t st2 resv1 dm2 in
     (evs1 ++ evs2, st3, dm3)
   end.
 
@@ -463,11 +464,11 @@ Definition evict_from_sources (c : cfg) (tbl abn pabn : list row) (ds : dstate)
   let st0 := (init_umap false tbl, node_avail d tbl) in
   let '(evs1, st1, dn) :=
     if is_nil (node_targets tbl) then ([], st0, fst ds)
-    else balance_pods c false (node_targets tbl) abn st0 (fst ds) in
+    else balance_pods c false (node_targets tbl) abn st0 (init_umap false tbl) (fst ds) in
   let pst0 := (init_umap true tbl, prod_avail d tbl (snd st1)) in
   let '(evs2, _, dp) :=
     if is_nil (prod_targets tbl) then ([], pst0, snd ds)
-    else balance_pods c true (prod_targets tbl) pabn pst0 (snd ds) in
+    else balance_pods c true (prod_targets tbl) pabn pst0 (init_umap true tbl) (snd ds) in
   (evs1 ++ evs2, (dn, dp)).
 
 (* processOneNodePool *)
